@@ -61,6 +61,29 @@ Theorem C09_arithmetic_on_sequence :
 Proof. intros G f fs op a b v Hk [H|H]; [eapply sequence_arith_refused_l|eapply sequence_arith_refused_r]; eauto. Qed.
 Print Assumptions C09_arithmetic_on_sequence.
 
+(* arithmetic on anything that is not a number - every operator, either operand position *)
+Theorem C09_arithmetic_on_nonnumber :
+  forall G f fs op a b k t, known_binop op = true -> (visit G f fs a = OK k \/ visit G f fs b = OK k) ->
+    type_name k = OK t -> is_num_type t = false -> err (visit G (S f) fs (EBinOp op a b)).
+Proof. exact arith_nonnumber_refused. Qed.
+Print Assumptions C09_arithmetic_on_nonnumber.
+
+Theorem C09_power_of_nonnumber :
+  forall G f fs a b k, (visit G f fs a = OK k \/ visit G f fs b = OK k) -> err (pow_operand k) ->
+    err (visit G (S f) fs (EBinOp "Pow" a b)).
+Proof. exact pow_nonnumber_refused. Qed.
+Print Assumptions C09_power_of_nonnumber.
+Example C09_power_nonnumbers :
+  err (pow_operand (KVal (Some "xAOD::Jet") 1)) /\ err (pow_operand (KSeq (KVal (Some "double") 0))) /\
+  err (pow_operand (KColl "xAOD::JetContainer" 1 "xAOD::Jet" 1)) /\ pow_operand (KVal (Some "bool") 0) = OK tt.
+Proof. vm_compute. repeat split. Qed.
+
+Theorem C09_sign_of_nonnumber :
+  forall G f fs op a k, String.eqb op "Not" = false -> visit G f fs a = OK k -> err (pow_operand k) ->
+    err (visit G (S f) fs (EUnOp op a)).
+Proof. exact unary_nonnumber_refused. Qed.
+Print Assumptions C09_sign_of_nonnumber.
+
 Theorem C09_column_count_mismatch :
   forall v n, List.length (match v with KTuple ks => ks | _ => [v] end) <> n -> err (result_ttree (KSeq v) n).
 Proof. exact column_count_mismatch_refused. Qed.
